@@ -66,6 +66,13 @@ class C13Executor(SymListMixin, ET.ETreeMixin, Executor):
     def join_term(self, sep, s):
         return VStr(JOIN(sep.t, s))
 
+    def b_isinstance(self, st, args, kwargs, node):
+        v, t = args
+        if isinstance(v, VExt) and v.sort in PYCLASS:
+            types = [x.name for x in (t.items if isinstance(t, VTuple) else [t]) if isinstance(x, VType)]
+            return [(st, VBool(bool(set(PYCLASS[v.sort]) & set(types))))]
+        return super().b_isinstance(st, args, kwargs, node)
+
 
 EXECUTOR = C13Executor
 EXECUTOR_KW = {}
@@ -226,10 +233,194 @@ def dim_contracts(reg):
     return out
 
 
+# ===================================================================== (c) ==
+# Python classes of the abstract value sorts used for cell values
+PYCLASS = {"DateTime": ("datetime.datetime", "datetime.date"), "Date": ("datetime.date",), "Time": ("datetime.time",),
+           "TimeDelta": ("datetime.timedelta",)}
+ISO = {k: z3.Function(f"isoformat_{k}", ext_sort(k), S) for k in ("DateTime", "Date", "Time")}
+
+
+def install_value_models(reg):
+    for k in ("datetime", "date", "time", "timedelta"):
+        reg.ext_models[("const", f"datetime.{k}")] = VType(f"datetime.{k}")
+    for k, f in ISO.items():
+        reg.method_models[(k, "isoformat")] = (lambda ex, st, o, a, kw, n, f=f: [(st, VStr(f(o.t)))])
+    # xlrd cell-type constants (documented values; replay/C13.py compares them with the installed xlrd)
+    for i, name in enumerate(("EMPTY", "TEXT", "NUMBER", "DATE", "BOOLEAN", "ERROR", "BLANK")):
+        reg.ext_models[("const", f"xlrd.XL_CELL_{name}")] = VInt(i)
+    reg.attr_models[("XlCell", "ctype")] = lambda ex, st, o: CELLINFO[o.t.get_id()][0]
+    reg.attr_models[("XlCell", "value")] = lambda ex, st, o: CELLINFO[o.t.get_id()][1]
+    reg.attr_models[("XlBook", "datemode")] = lambda ex, st, o: VInt(DATEMODE(o.t))
+
+    def m_xldate(ex, st, args, kwargs, node):
+        """xlrd.xldate_as_tuple(serial, datemode): ASSUMED -- raises (XLDateError family) for serials it cannot convert
+        (negative, too large, 1..60 in the 1900 date system), else the (y, m, d, h, mi, s) tuple of the serial
+        with y = m = d = 0 for a pure time (0 <= serial < 1)."""
+        bad = st.fork()
+        bad.ghost["xldate_failed"] = True
+        ex.exc_any(bad, f"{ex.loc(node)} xlrd.xldate_as_tuple")
+        v, mode = args[0], args[1]
+        if not isinstance(v, VReal) or not isinstance(mode, VInt):
+            return ex.havoc_call(st, "xldate_as_tuple", [], node)
+        parts = [XLD[k](v.t, ops.int_term(mode)) for k in range(6)]
+        st.assume(xldate_ranges(parts))
+        return [(st, VTuple([VInt(p) for p in parts]))]
+    reg.ext_models["xlrd.xldate_as_tuple"] = m_xldate
+
+
+CELLINFO = {}
+DATEMODE = z3.Function("xl_datemode", ext_sort("XlBook"), I)
+XLD = [z3.Function(f"xldate_{n}", z3.RealSort(), I, I) for n in ("year", "month", "day", "hour", "minute", "second")]
+
+
+def xldate_ranges(p):
+    y, mo, d, h, mi, sec = p
+    return z3.And(z3.Or(z3.And(y == 0, mo == 0, d == 0), z3.And(y >= 1900, y <= 9999, mo >= 1, mo <= 12, d >= 1, d <= 31)),
+                  h >= 0, h <= 23, mi >= 0, mi <= 59, sec >= 0, sec <= 59)
+
+
+def iso_time(h, mi, sec):
+    return z3.Concat(pad(h, 2), z3.StringVal(":"), pad(mi, 2), z3.StringVal(":"), pad(sec, 2))
+
+
+def iso_text(p, sep):
+    """ISO 8601 / RFC 3339 text of a (y, m, d, h, mi, s) tuple: a calendar date without time of day is YYYY-MM-DD, with
+    time of day YYYY-MM-DD<sep>HH:MM:SS; a pure time (no calendar date: y = m = d = 0) is HH:MM:SS."""
+    y, mo, d, h, mi, sec = p
+    date = z3.Concat(pad(y, 4), z3.StringVal("-"), pad(mo, 2), z3.StringVal("-"), pad(d, 2))
+    return z3.If(y == 0, iso_time(h, mi, sec),
+                 z3.If(z3.And(h == 0, mi == 0, sec == 0), date, z3.Concat(date, z3.StringVal(sep), iso_time(h, mi, sec))))
+
+
+def is_iso(t, p):
+    return z3.Or(t == iso_text(p, "T"), t == iso_text(p, " "))
+
+
+def p_date_tuple():
+    def mk(ex, st, name):
+        p = [z3.Int(f"{name}_{k}") for k in ("y", "mo", "d", "h", "mi", "s")]
+        return [(xldate_ranges(p), VTuple([VInt(x) for x in p]))]
+    return Maker(mk, desc="(y, m, d, h, mi, s) as produced by xlrd.xldate_as_tuple")
+
+
+XL_KINDS = ("empty", "text", "number", "date", "boolean", "error")
+
+
+def p_xlcell():
+    """One alternative per xlrd cell type (XL_CELL_BLANK only occurs with formatting_info=True, which the reader does not use)."""
+    def mk(ex, st, name):
+        alts = []
+        for i, kind in enumerate(XL_KINDS):
+            c = VExt("XlCell", z3.Const(f"{name}_{kind}", ext_sort("XlCell")))
+            cond = None
+            if kind in ("empty",):
+                val = VStr("")
+            elif kind == "text":
+                val = VStr(z3.String(f"{name}_text"))
+            elif kind in ("number", "date"):
+                val = VReal(z3.Real(f"{name}_{kind}_value"))
+            elif kind == "boolean":
+                t = z3.Int(f"{name}_bool_value")
+                val, cond = VInt(t), z3.Or(t == 0, t == 1)
+            else:
+                t = z3.Int(f"{name}_error_code")
+                val, cond = VInt(t), z3.And(t >= 0, t <= 255)
+            CELLINFO[c.t.get_id()] = (VInt(i), val, kind)
+            alts.append((cond, c))
+        return alts
+    return Maker(mk, desc="xlrd Cell of each type")
+
+
+def integral(r):
+    return z3.ToReal(z3.ToInt(r)) == r
+
+
+def xls_native_ok(c, res, branch):
+    """native value of an XLS cell per the statement: number -> int when integral else the float, bool -> bool,
+    date -> ISO text, text unchanged, empty -> None.  `branch` splits the date clause into three obligations:
+    'main' (calendar date, xlrd converts), 'time' (pure time of day), 'failed' (xlrd cannot convert the serial)."""
+    _ct, val, kind = CELLINFO[c.args["cell"].t.get_id()]
+    failed = bool(c.st.ghost.get("xldate_failed"))
+    if kind == "date":
+        if failed:
+            if branch != "failed":
+                return z3.BoolVal(True)
+            c.note = "xlrd.xldate_as_tuple raised: the date cell comes back as its raw serial number, not as ISO text"
+            return z3.BoolVal(isinstance(res, VStr))
+        if branch == "failed":
+            return z3.BoolVal(True)
+        if not isinstance(res, VStr):
+            return z3.BoolVal(False)
+        book = c.args["workbook"]
+        parts = [XLD[k](val.t, DATEMODE(book.t)) for k in range(6)]
+        is_time = parts[0] == 0
+        return z3.Implies(is_time if branch == "time" else z3.Not(is_time), is_iso(res.t, parts))
+    if branch != "main":
+        return z3.BoolVal(True)
+    if kind == "empty":
+        return z3.BoolVal(res is NONE)
+    if kind == "text":
+        return res.t == val.t if isinstance(res, VStr) else z3.BoolVal(False)
+    if kind == "number":
+        if isinstance(res, VInt):
+            return z3.And(integral(val.t), z3.ToReal(ops.int_term(res)) == val.t)
+        if isinstance(res, VReal):
+            return z3.And(z3.Not(integral(val.t)), res.t == val.t)
+        return z3.BoolVal(False)
+    if kind == "boolean":
+        return res.t == (val.t != 0) if isinstance(res, VBool) else z3.BoolVal(False)
+    return z3.BoolVal(True)       # error cells: no value to keep (reported as None / "#ERROR")
+
+
+def value_contracts(reg):
+    install_value_models(reg)
+    out = []
+
+    # ---- xlsx: datetime/date/time -> ISO text, everything else (None, str, int, float, bool, timedelta, error text) unchanged
+    def p_xlsx_value():
+        def mk(ex, st, name):
+            alts = [(None, NONE), (None, VStr(z3.String(f"{name}_s"))), (None, VInt(z3.Int(f"{name}_i"))), (None, VReal(z3.Real(f"{name}_f"))),
+                    (None, VBool(z3.Bool(f"{name}_b")))]
+            for k in ("DateTime", "Date", "Time", "TimeDelta"):
+                alts.append((None, VExt(k, z3.Const(f"{name}_{k}", ext_sort(k)))))
+            return alts
+        return Maker(mk, desc="None | str | int | float | bool | datetime | date | time | timedelta")
+
+    def xlsx_post(c):
+        v, r = c.args["cell_value"], c.result
+        if isinstance(v, VExt) and v.sort in ISO:
+            return r.t == ISO[v.sort](v.t) if isinstance(r, VStr) else z3.BoolVal(False)
+        if v is NONE:
+            return z3.BoolVal(r is NONE)
+        if type(r) is not type(v):
+            return z3.BoolVal(False)
+        return ops.eq_term(r, v)
+    out.append(FnContract(target=f"{XLSX}::_get_cell_value", params=[("cell_value", p_xlsx_value())],
+                          ensures=[("dates-as-iso-text-everything-else-keeps-value-and-type", xlsx_post)], raises=[],
+                          note="typed values (statement): numbers / booleans / text keep value and type, date-like values become their ISO text"))
+
+    # ---- xls
+    out.append(FnContract(target=f"{XLS}::_format_date_tuple", params=[("dt", p_date_tuple())],
+                          ensures=[("calendar-date-is-iso-text", lambda c: z3.Implies(c.args["dt"].items[0].t != 0, is_iso(c.result.t, [x.t for x in c.args["dt"].items])) if isinstance(c.result, VStr) else z3.BoolVal(False)),
+                                   ("time-only-is-iso-time", lambda c: z3.Implies(c.args["dt"].items[0].t == 0, is_iso(c.result.t, [x.t for x in c.args["dt"].items])) if isinstance(c.result, VStr) else z3.BoolVal(False))],
+                          raises=[], inline=True))
+    for fn, extra in (("_get_cell_values", []), ("_get_cell_value", [("as_string", Maker(lambda ex, st, name: VBool(False), desc="False", default=lambda ex, st: VBool(False)))])):
+        native = (lambda c: c.result.items[0] if isinstance(c.result, VTuple) else VUnk("?")) if fn == "_get_cell_values" else (lambda c: c.result)
+        out.append(FnContract(
+            target=f"{XLS}::{fn}", params=[("cell", p_xlcell()), ("workbook", p_ext("XlBook"))] + extra,
+            ensures=[("native-value-per-cell-type", lambda c, native=native: xls_native_ok(c, native(c), "main")),
+                     ("time-only-date-cell-is-iso-time", lambda c, native=native: xls_native_ok(c, native(c), "time")),
+                     ("date-cell-is-iso-text-when-xlrd-cannot-convert", lambda c, native=native: xls_native_ok(c, native(c), "failed"))],
+            raises=[], inline=True,
+            note="number -> int when integral, bool, date -> ISO text (statement); as_string=False for _get_cell_value"))
+    return out
+
+
 def contracts(reg):
     ET.install(reg)
     out = []
     out += dim_contracts(reg)
+    out += value_contracts(reg)
     return out
 
 
